@@ -58,7 +58,7 @@ func (a ConstInt64) ConvertConstScalar(t ScalarType) ConstScalar {
   case ConstInt64Type:
     return a
   default:
-    return NewConstScalar(t, a.GetFloat64())
+    return convertConstScalar(a, t)
   }
 }
 /* stringer
